@@ -21,7 +21,7 @@ FUNCTIONS = ["UnitDatabase.CheckCategoryUnit memo (_category_unit_valid)", "Unit
 BOUNDS = {
     "quick": "amounts and limits: all reals; pre-state: length(m, cm) + time(s) with categories length, depth(min 0); histories: one of 22 queries (read-only or failing), "
              "then one of 9 registrations (accepted or rejected), then the battery of all 22 queries compared warm vs fresh; all 22x9 histories",
-    "thorough": "same with two queries before the registration (seeded 1500 of the 22x22x9) and a second registration after the first battery (seeded 600)",
+    "thorough": "same with two queries before the registration (all 22x22x9) and a second registration after the first battery (seeded 4000)",
 }
 ASSUMPTIONS = ["A-FP", "'fresh database built from the same registrations' = the pre-state registrations plus the history's ACCEPTED registrations, in order",
                "memo tables are not part of the registry snapshot (their invisibility is exactly the second clause)"]
@@ -97,8 +97,8 @@ def items(tier, seed):
     out = [{"qs": [q], "rs": [r]} for q in range(NQ) for r in range(NR)]
     if tier != "quick":
         allq = [(a, b, r) for a in range(NQ) for b in range(NQ) for r in range(NR)]
-        out += [{"qs": [a, b], "rs": [r]} for a, b, r in rng.sample(allq, 1500)]
-        out += [{"qs": [rng.randrange(NQ)], "rs": [rng.randrange(NR), rng.randrange(NR)]} for _ in range(600)]
+        out += [{"qs": [a, b], "rs": [r]} for a, b, r in allq]
+        out += [{"qs": [rng.randrange(NQ)], "rs": [rng.randrange(NR), rng.randrange(NR)]} for _ in range(4000)]
     out.append({"qs": [0], "rs": [0], "canary": True})
     rng.shuffle(out)
     return out
